@@ -81,11 +81,11 @@ theorem channel_linear (fmt : Nat) (l : Layout) (value : Nat) (hl : layout fmt =
   · refine ⟨h5 11, h5 6, h5 1, ?_⟩
     simp only [withinStep, Nat.pow_zero, Nat.div_one, Nat.reducePow, Nat.reduceSub]
     split <;> omega
-  · refine ⟨h5 11, ?_, by simpa using h5 0, by omega⟩
+  · refine ⟨h5 11, ?_, by simpa using h5 0, trivial⟩
     simp only [withinStep, Nat.reducePow, Nat.reduceSub]; omega
   · exact ⟨h4 12, h4 8, h4 4, by simpa using h4 0⟩
   · simp only [withinStep, Nat.pow_zero, Nat.div_one, Nat.reducePow, Nat.reduceSub]; omega
-  · simp only [withinStep, Nat.pow_zero, Nat.div_one, Nat.reducePow, Nat.reduceSub]; omega
+  · refine ⟨?_, ?_, ?_, trivial⟩ <;> (simp only [withinStep, Nat.pow_zero, Nat.div_one, Nat.reducePow, Nat.reduceSub]; omega)
   · simp only [withinStep, Nat.pow_zero, Nat.div_one, Nat.reducePow, Nat.reduceSub]; omega
 
 private theorem chan_lt (fmt value : Nat) (l : Layout) (hl : layout fmt = some l) (c : Nat) :
@@ -227,7 +227,7 @@ theorem rgb5a3_spec (v : Nat) :
   · have h' : ¬ (v / 2 ^ 15 % 2 = 0) := by omega
     rw [if_pos h, if_neg h']
     simp only [chanOk, withinStep, Nat.pow_zero, Nat.div_one, Nat.reducePow, Nat.reduceSub]
-    refine ⟨?_, ?_, ?_, ?_⟩ <;> omega
+    refine ⟨?_, ?_, ?_, trivial⟩ <;> omega
   · have h' : v / 2 ^ 15 % 2 = 0 := by omega
     rw [if_neg h, if_pos h']
     simp only [chanOk, withinStep, Nat.pow_zero, Nat.div_one, Nat.reducePow, Nat.reduceSub]
